@@ -123,6 +123,7 @@ fn check_poll(queue: &[usize], i: usize) {
     let wk = kit::waker(N + kit::any_lt(2)); // the waker of this poll: a fresh identity (N or N+1)
     let mut cx = Context::from_waker(&wk);
     let was_set = w.ev.is_set();
+    let q0 = lv::view(&w.ev.inner.lock().waiters);
     kit::arm();
     let r = unsafe { core::pin::Pin::new_unchecked(&mut *w.futs[i]) }.poll(&mut cx);
     let term = w.futs[i].is_terminated();
@@ -139,6 +140,9 @@ fn check_poll(queue: &[usize], i: usize) {
     if r.is_pending() {
         let t = w.futs[i].wait_node.task.as_ref();
         assert!(t.is_some() && t.unwrap().will_wake(&wk), "[C14] a pending future is registered with the waker of its latest poll");
+    }
+    if w.st[i] == 1 {
+        assert!(lv::same(q0, lv::view(&w.ev.inner.lock().waiters)), "[C14] re-polling a queued waiter does not move it: set() wakes oldest first");
     }
     assert!(kit::total_wakes() == 0, "[C14] polling wakes nobody");
     assert!(w.ev.is_set() == was_set, "[C14] polling never changes the flag");
